@@ -446,6 +446,13 @@ def index(v: Val, idx: list, interp=None) -> Val:
                     e = sym.subst_ivar(e, iv, k)
         elif kind == "expr":
             x = it[1]
+            if x[0] != "iv":
+                # position variable plus a whole number (xs[i + 1]): the neighbour at a fixed offset
+                terms_, const_ = sym.lin_parts(x)
+                if len(terms_) == 1 and float(const_).is_integer():
+                    (t_, k_), = terms_.items()
+                    if t_[0] == "iv" and k_ == 1:
+                        x = sym.IV(t_[1], t_[2] + int(const_))
             if x[0] == "iv":
                 e = sym.subst_ivar(e, iv, (x[1], x[2]))
             elif x[0] == "num" and float(x[1]).is_integer():
